@@ -66,6 +66,12 @@ def fold( e, env=None ):
         return v
     if isinstance( e, ast.IfExp ):
         return fold( e.body, env ) if fold( e.test, env ) else fold( e.orelse, env )
+    if isinstance( e, ast.Call ) and isinstance( e.func, ast.Attribute ) and e.func.attr == 'join' and len( e.args ) == 1 and not e.keywords:
+        sep = fold( e.func.value, env ); parts = fold( e.args[0], env )
+        try:
+            return sep.join( parts )
+        except Exception as exc:
+            raise NoFold( str( exc ))
     if isinstance( e, ( ast.Name, ast.Attribute )) and env is not None:
         from .core import dotted
         d = dotted( e )
